@@ -12,7 +12,7 @@ def _v(M, key, m):
 
 def gross(M, key, m):
     """what people draw from the supply per unit eaten: eaten / (1 - retail waste)"""
-    return _v(M, key, m) * W(M.cfg)
+    return _v(M, key, m) * W(M.cfg, key)
 
 
 def used_stored(M, m):
@@ -137,7 +137,7 @@ def spec_lp(M, over="fresh"):
     the round's feed/biofuel rule holds."""
     cfg, S, N = M.cfg, M.S, M.cfg["N"]
     human = cfg["opt"] == "to_humans"
-    w = W(cfg)
+    wf = lambda food: W(cfg, food)
     K = q(cfg["seaweed_kcals"])
     need = q(cfg["pop"]) * q(cfg["kcals_daily"]) * 30 / q(1e9)
     c = M.consts
@@ -154,9 +154,9 @@ def spec_lp(M, over="fresh"):
         if _enabled(cfg, key):
             spec += [("allocation >= 0: %s [month %d]" % (key, m), A[key][m] >= 0) for m in range(N)]
     spec.append(("objective >= 0", zobj >= 0))
-    u_sf = lambda m: a("stored_food_to_humans", m) * w + a("stored_food_feed", m) + a("stored_food_biofuel", m)
-    u_cr = lambda m: a("crops_food_to_humans", m) * w + a("crops_food_feed", m) + a("crops_food_biofuel", m)
-    u_mt = lambda m: a("meat_eaten", m) * w
+    u_sf = lambda m: a("stored_food_to_humans", m) * wf("stored_food") + a("stored_food_feed", m) + a("stored_food_biofuel", m)
+    u_cr = lambda m: a("crops_food_to_humans", m) * wf("crops_food") + a("crops_food_feed", m) + a("crops_food_biofuel", m)
+    u_mt = lambda m: a("meat_eaten", m) * wf("meat")
     cum = lambda f, m: z3.Sum([f(j) for j in range(m + 1)]) if m >= 0 else q(0)
     F = cfg["flags"]
     if F.get("STORED_FOOD"):
@@ -179,10 +179,10 @@ def spec_lp(M, over="fresh"):
                 spec.append(("spec meat monthly [month %d]" % m, u_mt(m) <= S["slaughter"][m]))
     if F.get("METHANE_SCP"):
         for m in range(N):
-            spec.append(("spec scp monthly [month %d]" % m, a("methane_scp_to_humans", m) * w + a("methane_scp_feed", m) + a("methane_scp_biofuel", m) <= S["scp"][m]))
+            spec.append(("spec scp monthly [month %d]" % m, a("methane_scp_to_humans", m) * wf("methane_scp") + a("methane_scp_feed", m) + a("methane_scp_biofuel", m) <= S["scp"][m]))
     if F.get("CELLULOSIC_SUGAR"):
         for m in range(N):
-            spec.append(("spec cs monthly [month %d]" % m, a("cellulosic_sugar_to_humans", m) * w + a("cellulosic_sugar_feed", m) + a("cellulosic_sugar_biofuel", m) <= S["cs"][m]))
+            spec.append(("spec cs monthly [month %d]" % m, a("cellulosic_sugar_to_humans", m) * wf("cellulosic_sugar") + a("cellulosic_sugar_feed", m) + a("cellulosic_sugar_biofuel", m) <= S["cs"][m]))
     if F.get("SEAWEED"):
         for m in range(N):
             built = zz_s(S["area"][m])
@@ -193,7 +193,7 @@ def spec_lp(M, over="fresh"):
                                                           a("seaweed_to_humans", 0) == 0, a("seaweed_feed", 0) == 0, a("seaweed_biofuel", 0) == 0)))
             else:
                 g = q(1) + q(M.growth[m]) / 100
-                spec.append(("spec seaweed ledger [month %d]" % m, a("seaweed_wet_on_farm", m) == a("seaweed_wet_on_farm", m - 1) * g - a("seaweed_to_humans", m) * w - a("seaweed_feed", m)
+                spec.append(("spec seaweed ledger [month %d]" % m, a("seaweed_wet_on_farm", m) == a("seaweed_wet_on_farm", m - 1) * g - a("seaweed_to_humans", m) * wf("seaweed") - a("seaweed_feed", m)
                              - a("seaweed_biofuel", m) - (a("used_area", m) - a("used_area", m - 1)) * q(c["MINIMUM_DENSITY"]) * (q(c["HARVEST_LOSS"]) / 100)))
     fsum = lambda m: a("stored_food_feed", m) + a("crops_food_feed", m) + a("seaweed_feed", m) * K + a("cellulosic_sugar_feed", m) + a("methane_scp_feed", m)
     bsum = lambda m: a("stored_food_biofuel", m) + a("crops_food_biofuel", m) + a("seaweed_biofuel", m) * K + a("cellulosic_sugar_biofuel", m) + a("methane_scp_biofuel", m)
